@@ -1690,6 +1690,21 @@ def oracle_c06(sc, res):
             pass
         return vios
     root = m.root.id
+    # "A guard that raises counts as false ... and the interpreter is undisturbed": whatever the event kind (named, after,
+    # done.invoke / error.platform, done.state), no exception other than the library's own errors may surface from
+    # event processing - out of send()/start(), through the run loop's log, or by killing a timer thread
+    for r in res.trace:
+        if r[K] == "log" and r[6] and r[6] not in ("ImplementationMissingError", "StaticFault", "InjectedFault", "InvalidConfigError",
+                                                   "StateNotFoundError", "NotSupportedError", "ActorSpawningError"):
+            msg_ = r[7] or ""
+            if "Error processing event" in msg_ or "after-timer thread" in msg_ or "rolling back" in msg_:
+                vios.append(Violation("C06", "exception-escaped-event-processing", {"engine": sc["engine"], "exc": r[6]},
+                                      f"{r[6]} surfaced while processing an event: {msg_[:140]}"))
+                break
+        if r[K] == "op-ret" and isinstance(r[6], tuple) and r[6] and r[6][0] == "exc" and not r[6][2] and r[5] in ("send", "send_events", "start"):
+            vios.append(Violation("C06", "exception-escaped-event-processing", {"engine": sc["engine"], "exc": r[6][1]},
+                                  f"{r[5]}() raised {r[6][1]} which is not a library error: {str(r[6][3])[:120]}"))
+            break
     chooses, enqs = {}, {}
     _find_choose_and_enq(sc["machine"], chooses, enqs)
     ctx = dict(sc["machine"].get("context") or {})
@@ -1749,7 +1764,9 @@ def oracle_c06(sc, res):
                 cur["recs"].append(r)
             elif k == "act" and r[4] == root and r[5].startswith("ex."):
                 cur["recs"].append(r)
-            elif k == "log" and r[6] == "ImplementationMissingError" and "Error processing event" in (r[7] or ""):
+            elif k == "log" and r[6] == "ImplementationMissingError" and (
+                    "Error processing event" in (r[7] or "") or "after-timer thread" in (r[7] or "")):
+                # (the sync engine processes a timer's expiry - and whatever it raises - in the timer thread, which reports it)
                 cur["err_log"] = True
             elif k == "op-ret":
                 if isinstance(r[6], tuple) and r[6][0] == "exc" and r[6][1] == "ImplementationMissingError":
@@ -1798,6 +1815,8 @@ def oracle_c06(sc, res):
         if any(ae for _n, ae in outcomes):
             continue  # an enabled eventless candidate competes in this pass (see C02 leniency)
         nomsets = {n for n, _ae in outcomes}
+        if len(nomsets) > 1 and not fired_ids and (ek != "plain" or etype.startswith("done.state.")):
+            continue  # a notification of an exited activation is discarded before any guard is looked at
         if len(nomsets) > 1:
             vios.append(Violation("C06", "missing-guard-decided-silently", sig,
                                   f"event {etype} in {sorted(cfg_at)} ctx={ctx_at}: outcome depends on unimplemented guard(s) {names} "
